@@ -305,7 +305,7 @@ func genExclScenario(rng *rand.Rand, profile, mode string) any {
 func runExclExec(execID int, sci any, e *Env) []rec.Ev {
 	sc := sci.(*XScenario)
 	x := &xExec{e: e, x: new(bigbuff.Exclusive), rel: map[int]chan struct{}{}}
-	x.rlctx, x.rlcancel = context.WithCancel(context.Background())
+	x.rlctx, x.rlcancel = withCancelCause(context.Background())
 	defer x.rlcancel()
 	e.R.Add(rec.Ev{"ev": "reset", "exec": execID, "mode": e.Mode})
 	for i, ops := range sc.Drivers {
